@@ -116,7 +116,9 @@ ODD_KEYS = ("C+0", "C+01", "N-0", "O+00", "C-\u00b2", "N+\u0661", "S+007", "C+10
             "N+\uff11", "C+1\u00b2", "N+1\u0660", "C+\u0967\u0966",
             "C+" + "1" * 5000, "Fe-" + "9" * 4400, "N+" + "7" * 4299)      # charges int() refuses / just accepts
 BAD_VALUES = ("-1", "-7", "2.0", "2.5", "'3'", "None", "[1]", "(2,)", "-0.0", "1e0", "{}")
-BAD_PRESETS = ("octet", "Default", "", "hyper-valent", "default ", "OCTET_RULE", "?", "C")
+BAD_PRESETS = ("octet", "Default", "", "hyper-valent", "default ", "OCTET_RULE", "?", "C",
+               "default\n", " default", "\tdefault", "defaul", "octet-rule", "octet rule", "Hypervalent",
+               "hypervalent\n", "defaults", "default,octet_rule", "current", "none")
 BAD_ARGS = ("None", "4", "2.5", "[('C', 4), ('?', 8)]", "(('?', 8),)", "['?']", "{'?'}",
             "b'default'", "True")
 BAD_KEYOBJ = ("1", "None", "('C',)", "2.5", "b'C'")
